@@ -21,6 +21,9 @@ def emit_offset(rows, out, off):
         if N == 0 or i % 7 == 0:
             w('SA(%d, "is_trivially_relocatable<T>", amc::is_trivially_relocatable<%s>::value == %s);\n' % (i, T, b(r['tr'])))
             w('SA(%d, "pair<T,tr>", amc::is_trivially_relocatable<std::pair<%s, vs::S<4,4,2> > >::value == %s);\n' % (i, T, b(r['pairWithTR'])))
+            w('SA(%d, "pair<tr,T>", amc::is_trivially_relocatable<std::pair<vs::S<4,4,2>, %s> >::value == %s);\n' % (i, T, b(r['pairWithTR'])))
+            w('SA(%d, "pair<trivial,T>", amc::is_trivially_relocatable<std::pair<int, %s> >::value == %s);\n' % (i, T, b(r['pairWithTR'])))
+            w('SA(%d, "vector of pair<tr,T> element trait", amc::is_trivially_relocatable<amc::SmallVector<std::pair<vs::S<4,4,2>, %s>, 3> >::value == %s);\n' % (i, T, b(r['pairWithTR'])))
             w('SA(%d, "pair<T,ntr>", amc::is_trivially_relocatable<std::pair<vs::S<4,4,3>, %s> >::value == %s);\n' % (i, T, b(r['pairWithNTR'])))
             w('SA(%d, "vector<T> relocatable", amc::is_trivially_relocatable<amc::vector<%s> >::value == %s);\n' % (i, T, b(r['vecTR'])))
             w('SA(%d, "vector<T> noexcept move", std::is_nothrow_move_constructible<amc::vector<%s> >::value && std::is_nothrow_move_assignable<amc::vector<%s> >::value);\n' % (i, T, T))
